@@ -16,6 +16,7 @@ collision free.  It scans with an explicit "previous character was the escape ch
 -/
 import FairModel.Model.Proto
 import FairModel.Generated.MergeConsts
+import FairModel.Generated.MergeCallers
 
 namespace Merge
 
@@ -61,6 +62,25 @@ def splitAux : Bool → Str → List Str
     else consHead c (splitAux false rest)
 
 def split (s : Str) : List Str := splitAux false s
+
+/-! ### the callers: what `_validate_and_reformat_input` turns a feature table into -/
+
+/-- a row's group identifier after validation -/
+inductive GroupId where
+  /-- single column: the cell itself, passed through `pd.Series(x.squeeze())` unchanged (the `Str` is the
+      harness's canonical token of the VALUE: numbers that compare equal have the same token) -/
+  | raw (v : Str)
+  /-- several columns: the merged string of the stringified cells -/
+  | merged (k : Str)
+deriving Repr, DecidableEq
+
+/-- merge iff the row has more than `threshold` columns (`len(shape) > 1 and shape[1] > threshold`) -/
+def encodeWith (threshold : Nat) (r : List Str) : GroupId :=
+  if r.length > threshold then .merged (joinNames r) else .raw (r.headD [])
+
+/-- sensitive features / control features, each with its own lifted threshold (and the same `_merge_columns`) -/
+def encodeSensitive (r : List Str) : GroupId := encodeWith MergeCallers.sfThreshold r
+def encodeControl (r : List Str) : GroupId := encodeWith MergeCallers.cfThreshold r
 
 /-! ### partitions of row positions -/
 
@@ -126,7 +146,9 @@ def rectangular (rows : List (List Str)) (w : Nat) : Bool := rows.all (fun r => 
   `merge.split <string>`                 decoder -> string list
   `merge.keys <table>`                   merged keys of all rows -> string list
   `merge.classes <table>`                partition by merged key -> classes (sorted by first position)
-  `merge.cells <width> <table>`          MetricFrame-style non-empty intersectional cells -/
+  `merge.cells <width> <table>`          MetricFrame-style non-empty intersectional cells
+  `merge.encode <sf|cf> <table>`         group ids after `_validate_and_reformat_input`: `r:<token>` | `m:<key>` per row
+  `merge.encode.classes <sf|cf> <table>` partition by those ids -/
 def handle (toks : List String) : Option String :=
   match toks with
   | ["merge.join", row] => do
@@ -143,6 +165,18 @@ def handle (toks : List String) : Option String :=
     let rows ← parseTable t
     if rows.any (·.isEmpty) then none
     else pure (fmtClasses (sortClasses (classes (mergeColumns rows))))
+  | ["merge.encode", which, t] => do
+    let rows ← parseTable t
+    let enc ← (match which with | "sf" => some encodeSensitive | "cf" => some encodeControl | _ => none)
+    if rows.any (·.isEmpty) then none
+    else pure (Proto.fmtList (fun g => match g with
+      | GroupId.raw v => "r:" ++ Proto.fmtStr (ofStr v)
+      | GroupId.merged k => "m:" ++ Proto.fmtStr (ofStr k)) (rows.map enc))
+  | ["merge.encode.classes", which, t] => do
+    let rows ← parseTable t
+    let enc ← (match which with | "sf" => some encodeSensitive | "cf" => some encodeControl | _ => none)
+    if rows.any (·.isEmpty) then none
+    else pure (fmtClasses (sortClasses (classes (rows.map enc))))
   | ["merge.cells", w, t] => do
     let w ← Proto.parseNat w
     let rows ← parseTable t
